@@ -16,5 +16,5 @@ static uint64_t c15_fnv(uint64_t h, const void *p, size_t n) {
 }
 
 /* E ... (history on one encoder, a fresh encoder per run, and a "shimmed" encoder) and ed ... (struct dumps) */
-void c15_cmd_encoder(int nt, char **tok, int dump_mode);
+void c15_cmd_encoder(int nt, char **tok, int mode);   /* bit 0: struct dumps, bit 1: Flow Mode */
 #endif
